@@ -188,8 +188,8 @@ def eval_C11(case):
         got = unpack_outputs(b2, call(F, pack_args(b2, F, vals, 0)), 0)
         want = numpy_step(b, vals, params, flags)
         evals += 1
-        for k in want:
-            if not close(got[k], want[k]):
+        for k in want:  # (NaN: outside the model's domain, fmax/np.maximum propagate it differently)
+            if not np.any(np.isnan(want[k])) and not np.any(np.isnan(got[k])) and not close(got[k], want[k]):
                 viol.append((f"casadi {case['casadi']} with options {[n for n in FLAG_NAMES if flags[n]]}: next {k[1]} of {k[0]}",
                              jl(got[k]), jl(want[k])))
     return dict(violations=viol[:20], evals=evals, tags=list(nontrivial) + ["vsl"] * ("vsl" in topo_tags(b)))
@@ -370,6 +370,8 @@ def check_C12(rng, budget):
                     elif r < 0.6:
                         drop += [[key, v] for v in d if rng.random() < 0.5]
             c["drop"] = drop
+            if drop:  # engine-made variables are (1,) arrays: keep the supplied scalars shape-compatible
+                c["shape"] = "1d"
             c["seed"] = int(rng.integers(0, 2 ** 31))
             c["sym"] = [None, "SX", "MX"][i % 3]
             c["between"] = [["numpy", "SX"], ["MX", "numpy"], ["SX", "MX", "numpy"]][i % 3]
